@@ -122,7 +122,9 @@ Proof.
     inversion SL; subst. cbn [b_store rv_backend] in STO. unfold r_store in STO. cbn [List.length store_fields] in STO.
     destruct (r_fresh Fst rest); cbn [rbind] in STO; inversion STO; subst. eexists _, _. split; [reflexivity|]. cbn; lia.
   - destruct (cs_invoke _ _ _ _ _ _ _ _ _ _ CS) as (tmpv & d & _ & _ & _ & CD).
-    destruct (Nat.leb (List.length (txtors d)) 1); [subst code|destruct CD as (k & _ & ->)]; eexists _, _; (split; [reflexivity|]); cbn; lia.
+    destruct (Nat.leb (List.length (txtors d)) 1); [subst code; eexists _, _; (split; [reflexivity|]); cbn; lia|].
+    destruct CD as (k & _ & ->). cbn [b_mark b_add_and_jump rv_backend app]. unfold r_add_and_jump.
+    destruct (addi_fits _); eexists _, _; (split; [reflexivity|]); [cbn; lia|apply isize_LI].
   - destruct (cs_literal _ _ _ _ _ _ _ _ _ CS) as (tv & c2 & _ & _ & ->). eexists _, _. split; [reflexivity|]. apply isize_LI.
   - destruct (cs_op _ _ _ _ _ _ _ _ _ _ _ CS) as (tv & ta & tb & c2 & _ & _ & _ & _ & ->).
     destruct o; eexists _, _; (split; [reflexivity|]); cbn; lia.
@@ -169,6 +171,7 @@ Definition clo_ok (a : Z) (tn : ident) (cls : list clause) : Prop :=
   forall k c, nth_error cls k = Some c ->
     exists i pcb lcb cb lcb',
       PM.find (key (a + (if Nat.leb (List.length cls) 1 then 0 else jump_length (N.of_nat k)))) (index_at im) = Some i /\
+      a + (if Nat.leb (List.length cls) 1 then 0 else jump_length (N.of_nat k)) < 4611686018427387904 - 32 /\
       (forall s, star im i s pcb s) /\
       rcs (ptypes p) (cl_body c) (cl_ctx c) lcb = Ok (cb, lcb') /\ placed im pcb cb /\
       lin_check (sigs_of p) (cl_ctx c) (cl_body c) = true /\ stmt_fr clo (cl_body c) = true.
@@ -225,7 +228,7 @@ Proof.
     assert (P5 : pre5 = []) by (apply PRE0; reflexivity).
     assert (J1 : jl = 1%nat) by (unfold jl; rewrite TB, P5; reflexivity).
     exists (padd pcl (S jl)), (padd pcl (S jl)), lc0, cb, lc2.
-    split; [|split; [intros s; apply star_refl|split; [exact BD|split; [exact CB|split; [exact S1|exact S2]]]]].
+    split; [|split; [rewrite Z.add_0_r; exact (SMALL CLO pcl a AL)|split; [intros s; apply star_refl|split; [exact BD|split; [exact CB|split; [exact S1|exact S2]]]]]].
     rewrite Z.add_0_r. rewrite TB, P5, Ecb in CODE. cbn [app] in CODE. rewrite J1.
     pose proof (addr_along im IMG _ pcl a CODE AL 2%nat c0 eq_refl) as A2. cbn [firstn size_of isize] in A2.
     replace (a + (0 + (0 + 0))) with a in A2 by lia.
@@ -242,8 +245,9 @@ Proof.
       cbn [firstn]. rewrite app_nil_r, TB, code_table_size by lia. lia. }
     rewrite SZ in AJ'.
     exists (padd pcl (1 + k)), (padd pcl (S jl)), lc0, cb, lc2.
-    split; [|split; [|split; [exact BD|split; [exact CB|split; [exact S1|exact S2]]]]].
+    split; [|split; [|split; [|split; [exact BD|split; [exact CB|split; [exact S1|exact S2]]]]]].
     + unfold jump_length. rewrite nat_N_Z. apply (io_index im IMG _ (JAL ZERO lx) _ CJ); [cbn; lia|exact AJ'].
+    + unfold jump_length. rewrite nat_N_Z. exact (SMALL CLO _ _ AJ').
     + intros s. eapply star_step; [eapply one_jump; [exact CJ|exact AJ|]|apply INTO].
       cbn [step]. unfold goto_label. rewrite FLx. reflexivity.
 Qed.
@@ -337,7 +341,7 @@ Proof.
   destruct (find (fun d => ident_eqb (tname d) tn) (ptypes p)) as [d'|] eqn:FD; [|discriminate]. inversion LT; subst d'. clear LT.
   destruct (XC.find_clause_pos cls (txtors d) tag cl 0%N CO FC) as (k & xk & Hk & Hxk & XP & FX & SMk).
   pose proof (XC.cls_sig_length _ _ CO) as LCL.
-  destruct (ENTRY k cl Hk) as (i & pcb & lcb & cb & lcb' & IX & ARR & CSb & PLb & LCb & FRb).
+  destruct (ENTRY k cl Hk) as (i & pcb & lcb & cb & lcb' & IX & ABk & ARR & CSb & PLb & LCb & FRb).
   (* the new environment: nothing but X1 changes *)
   assert (T2' : rtpos Snd (List.length c0) = Ok t2) by (rewrite <- L0; exact T2).
   assert (R1 : forall s', (forall r, r <> TEMP -> rget s' r = rget s r) -> rrel (cl_ctx cl) (e1 ++ []) s').
@@ -364,10 +368,6 @@ Proof.
     destruct CODE as (k' & XP' & ->). assert (k' = N.of_nat k) by (rewrite XP in XP'; inversion XP'; lia). subst k'.
     set (off := jump_length (N.of_nat k)) in *.
     assert (OFF : 0 <= off) by (unfold off, jump_length; lia).
-    cbn [r_add_and_jump] in CA.
-    pose proof (ENC _ _ (proj1 (CA O _ eq_refl))) as W. cbn [instr_wf] in W. apply andb_true_iff in W as [_ FI].
-    change (simm12 off) with (fits12 off) in FI.
-    assert (FI' : off <= 2047) by (unfold fits12 in FI; lia).
     assert (WR : wrap (a + off) = a + off) by (apply wrap_small; unfold min_int, max_int, two63; lia).
     assert (EV : wrap (a + off) mod 2 = 0).
     { rewrite WR. unfold off, jump_length. replace (a + 4 * Z.of_N (N.of_nat k)) with (a + (2 * Z.of_N (N.of_nat k)) * 2) by lia.
@@ -375,15 +375,32 @@ Proof.
     assert (IX' : PM.find (key (wrap (a + off))) (index_at im) = Some i) by (rewrite WR; exact IX).
     set (s1 := rset s TEMP (Some (wrap (a + off)))).
     exists s1. split; [|split; [exact CSb|split; [exact PLb|split; [exact LCb|split; [exact FRb|split; [|apply same_mem_rset]]]]]].
-    + eapply star_trans; [|apply ARR].
+    2:{ apply R1. intros r NR. unfold s1. apply rget_rset_other. congruence. }
+    eapply star_trans; [|apply ARR].
+    unfold r_add_and_jump in CA. destruct (addi_fits off) eqn:FI; change (addi_fits off) with (fits12 off) in FI; cbn [app] in CA.
+    + (* the offset is an ADDI immediate *)
       eapply star_trans; [eapply (star_next im _ _ _ s s1); [exact CA|]|].
       * intros ad. destruct (rv_add_and_jump_sel im ad t2 off a i s V2 FI EV IX') as (c1 & c2 & E & ST1 & _).
-        cbn [b_add_and_jump rv_backend r_add_and_jump] in E. inversion E; subst c1 c2. exact ST1.
+        cbn [b_add_and_jump rv_backend] in E. unfold r_add_and_jump in E. change (addi_fits off) with (fits12 off) in E. rewrite FI in E.
+        inversion E; subst c1 c2. exact ST1.
       * apply at_code_cons in CA as [_ CA]. eapply (star_jump im _ _ _ s1 s1); [exact CA|]. intros ad.
         destruct (rv_add_and_jump_sel im (ad - 4) t2 off a i s V2 FI EV IX') as (c1 & c2 & E & _ & ST2).
-        cbn [b_add_and_jump rv_backend r_add_and_jump] in E. inversion E; subst c1 c2.
+        cbn [b_add_and_jump rv_backend] in E. unfold r_add_and_jump in E. change (addi_fits off) with (fits12 off) in E. rewrite FI in E.
+        inversion E; subst c1 c2.
         cbn [isize] in ST2. replace (ad - 4 + 4) with ad in ST2 by lia. exact ST2.
-    + apply R1. intros r NR. unfold s1. apply rget_rset_other. congruence.
+    + (* a larger offset: LI X1, off; ADD X1, t2, X1 *)
+      assert (NT2 : t2 <> TEMP) by (apply rtpos_regs in T2'; tauto).
+      assert (SEL : forall p1 p2 p3, step im p1 (LI TEMP off) s = Next (rset s TEMP (Some off)) /\
+                step im p2 (ADD TEMP t2 TEMP) (rset s TEMP (Some off)) = Next s1 /\
+                step im p3 (JALR ZERO TEMP 0) s1 = Jump s1 i).
+      { intros p1 p2 p3. destruct (rv_add_and_jump_big_sel im p1 p2 p3 t2 off a i s V2 NT2 FI EV IX') as (c1 & c2 & c3 & E & S1 & S2 & S3).
+        cbn [b_add_and_jump rv_backend] in E. unfold r_add_and_jump in E. change (addi_fits off) with (fits12 off) in E. rewrite FI in E.
+        inversion E; subst c1 c2 c3. auto. }
+      eapply star_trans; [eapply (star_next im _ _ _ s (rset s TEMP (Some off))); [exact CA|intros ad; apply (SEL ad 0 0)]|].
+      apply at_code_cons in CA as [_ CA].
+      eapply star_trans; [eapply (star_next im _ _ _ (rset s TEMP (Some off)) s1); [exact CA|intros ad; apply (SEL 0 ad 0)]|].
+      apply at_code_cons in CA as [_ CA].
+      eapply (star_jump im _ _ _ s1 s1); [exact CA|]. intros ad. apply (SEL 0 0 ad).
 Qed.
 
 (* progress at Invoke: under the relation a linearly well-typed invoke finds its closure, its clause and
